@@ -22,6 +22,7 @@ package main
 
 import (
 	"fmt"
+	"go/ast"
 	"go/token"
 	"go/types"
 	"math"
@@ -324,6 +325,17 @@ type lsummary struct {
 	nProved int
 }
 
+// LoopFact: what the analysis established about one integer variable assigned in one loop.
+type LoopFact struct {
+	Fn        string
+	Pos       token.Pos
+	Var       types.Object
+	EntryOK   bool  // the value at loop entry is a constant
+	Entry     int64 // that constant
+	StepOne   bool  // on every back edge the variable is exactly one larger than at the loop head
+	BackEdges int
+}
+
 // LinResult is what the rules see.
 type LinObligation struct {
 	Fn, What string
@@ -350,7 +362,13 @@ type linAnalysis struct {
 	info   *types.Info
 	over   bool
 	root   bool
-	multi  *multiVal // results of the last multi-value library call in expression position
+	multi  *multiVal    // results of the last multi-value library call in expression position
+	named  []*types.Var // named results of the function being summarised
+
+	// observation hooks for rules (called in every function that is summarised, probe passes excluded)
+	OnCall   func(a *linAnalysis, st *lstate, fn string, call *ast.CallExpr, callee types.Object, args []*lval)
+	OnReturn func(a *linAnalysis, st *lstate, fn string, ret *ast.ReturnStmt)
+	Loops    []LoopFact
 }
 
 func (p *Program) newLin() *linAnalysis {
